@@ -91,7 +91,10 @@ def run_unit(unit, cfg, profile_name="default", extra_args=None, canary=False, s
     r = UnitResult(unit, profile_name)
     t0 = time.time()
     vc_path = os.path.join(ROOT, cfg["vc"])
-    os.makedirs(os.path.join(BUILD, unit), exist_ok=True)
+    # one directory per (unit, invoking check): concurrent checks of different properties that share a unit (C01/C02, C03/C16,
+    # C06 with C08/C09) must not overwrite each other's generated files; the file NAME stays the profile name
+    bdir = os.path.join(BUILD, unit, os.environ.get("VERIF_RUN_TAG", ""))
+    os.makedirs(bdir, exist_ok=True)
     try:
         kd = cfg.get("expected_not_under_contract")
         text, origins, log = template.build(vc_path, REPO, cfg.get("defines", {}), canary=canary, known_drops=set(kd) if kd is not None else None, strip=strip, loop_shapes=cfg.get("expected_loop_shapes"))
@@ -103,7 +106,7 @@ def run_unit(unit, cfg, profile_name="default", extra_args=None, canary=False, s
         r.wall_s = time.time() - t0
         return r
     r.log, r.text, r.origins = log, text, origins
-    gen = os.path.join(BUILD, unit, "%s%s.rs" % (profile_name, "_canary" if canary else ""))
+    gen = os.path.join(bdir, "%s%s.rs" % (profile_name, "_canary" if canary else ""))
     open(gen, "w").write(text)
     r.gen_path = gen
     r.assumptions = scan_assumptions(text)
@@ -114,7 +117,7 @@ def run_unit(unit, cfg, profile_name="default", extra_args=None, canary=False, s
         args += ["--smt-option", "smt.random_seed=%d" % seed]
     r.cmd = " ".join(args)
     try:
-        p = subprocess.run(args, capture_output=True, text=True, timeout=timeout, cwd=os.path.join(BUILD, unit))
+        p = subprocess.run(args, capture_output=True, text=True, timeout=timeout, cwd=bdir)
     except subprocess.TimeoutExpired:
         r.status = "infra"
         r.infra_msg = "verus timed out after %ds" % timeout
